@@ -13,8 +13,9 @@ pub mod c16;
 pub mod c17;
 pub mod c18;
 pub mod c19;
+pub mod c20;
 
-pub const ALL: &[&str] = &["C01", "C02", "C06", "C09", "C10", "C12", "C13", "C14", "C15", "C16", "C17", "C18", "C19"];
+pub const ALL: &[&str] = &["C01", "C02", "C06", "C09", "C10", "C12", "C13", "C14", "C15", "C16", "C17", "C18", "C19", "C20"];
 
 pub fn run(ctx: &Ctx) -> bool {
     match ctx.prop.as_str() {
@@ -31,6 +32,7 @@ pub fn run(ctx: &Ctx) -> bool {
         "C17" => c17::run(ctx),
         "C18" => c18::run(ctx),
         "C19" => c19::run(ctx),
+        "C20" => c20::run(ctx),
         _ => return false,
     }
     true
@@ -51,6 +53,7 @@ pub fn checks(id: &str) -> Vec<Box<dyn DynCheck>> {
         "C17" => c17::checks(),
         "C18" => c18::checks(),
         "C19" => c19::checks(),
+        "C20" => c20::checks(),
         _ => vec![],
     }
 }
